@@ -35,6 +35,15 @@ reads included -, ALL byte contents):
   constructed messages sent back to back, cut into reads in any way: the receiver delivers exactly their
   frames and C03's `parseMessage` on the delivered frames returns exactly the messages sent (type, serial,
   flags, header attributes, body), in order, each once; buffer empty.
+  `recv_delivers_sent` (+ `_c01`, `_after_handshake_c01`), `recv_delivers_calls_c01` (review 3): the same about
+  `recvRun` = the whole of `rawDBusMessageReceived` (parse, `_receivedFDs[m.unix_fds:]`, dispatch to the four
+  hooks, exceptions escaping): every message reaches the hook of its class and is handed the expected content,
+  `otherFlags = 0`, the raw parts; `_calls_` states the content from the CONSTRUCTOR ARGUMENTS.
+  LIMITS of all composed theorems: the senders are txdbus's own constructors, i.e. LITTLE-ENDIAN frames only (the
+  property's "whatever mix of byte orders" is proved for the framing - `binary_partition_independent`,
+  `frames_of_messages` - and only TESTED for the parsed delivery of big-endian frames); descriptor-free, or the
+  receiver's descriptor list a free parameter per delivery (its evolution is C05); in the generic (`SentOK`) forms
+  the body clause is relative to the codec; hooks return normally.
 -/
 namespace Txdbus.Proto
 open Txdbus.Gen.ProtoConst
@@ -377,7 +386,12 @@ with nothing buffered.  Then:
 * C03's `parseMessage` on the delivered frames (each with the receiver's descriptor list for that delivery)
   succeeds on every one and yields, in order, exactly the contents `x.expected`: message type, serial, both
   flags, all header attributes, body;
-* nothing stays buffered. -/
+* nothing stays buffered.
+LIMITS.  (i) The body clause is RELATIVE TO THE CODEC: `x.decoded` is whatever `C.unmarshal` returns for the bytes
+`C.marshal` produced (`hC`); a codec that decodes every body to garbage satisfies the premises - only the `_c01` forms
+tie the body to what the sender passed.  (ii) Constructed messages are little-endian: big-endian frames are outside
+this theorem (stream only).  (iii) `x.fds` is a free parameter per delivery; `parseFrames` does not model the slice
+`_receivedFDs[m.unix_fds:]`, the dispatch, nor `otherFlags` / raw parts - `recv_delivers_sent` does. -/
 theorem delivers_parsed_messages {β : Type} (C : Msg.BodyCodec β) (na : Char → Bool) (maxLen : Nat)
     (hmax : maxLen ≤ Msg.Spec.maxMessage) (A : Auth α) (s : St α) (xs : List (Sent β)) (reads : List Bytes)
     (ha : s.authenticated = true) (hbuf : s.buffer = []) (hnext : s.nextMsgLen = 0)
@@ -636,6 +650,313 @@ example : ∃ st' m, Msg.construct Gen.Message.tables idCodec (fun _ => false) G
   cases hsg
   rfl
 
+/-! ## After review 3: the whole of `rawDBusMessageReceived` (dispatch, descriptor list, exceptions), raw parts,
+constructor arguments
+
+`recvRun` (Proto/Receive.lean) = framing, then per delivered frame `parseMessage(raw, self._receivedFDs)`, the slice
+`self._receivedFDs[m.unix_fds:]`, the dispatch `mt == 1 … 4` to the four hooks; an exception of `parseMessage` escapes
+`dataReceived` where the code lets it escape.  The theorems below conclude about the COMPLETE observation of every hook
+call (`Handed`: which hook, the content `Msg.View`, `otherFlags`, `rawHeader` / `rawPadding` / `rawBody`).
+
+Limits, stated once for all `delivers_parsed_messages*` / `recv_delivers_*` theorems (relative to their explicit
+hypotheses they are full strength):
+* SENDERS ARE txdbus's OWN CONSTRUCTORS, hence LITTLE-ENDIAN frames.  The property text says "whatever mix of byte
+  orders": for the FRAMING that is `binary_partition_independent` / `frames_of_messages` (any first byte); for the
+  PARSED delivery big-endian frames are covered by the correspondence stream only (C03 `parse_foreign` is not composed).
+* DESCRIPTOR-FREE in the `recv_*` forms (`x.msg.attrs .unixFds = .none`: no descriptor was collected, `_receivedFDs`
+  is the same list at every delivery); in the `delivers_parsed_messages*` forms the receiver's list is a FREE parameter
+  per delivery (`Sent.fds`) - how `_receivedFDs[m.unix_fds:]` evolves over a run is C05's subject;  `_c01`: `oobFDs`
+  None or `[]`.
+* In the generic forms (`SentOK`, any `BodyCodec`) the body clause is RELATIVE TO THE CODEC: `x.decoded` is whatever
+  `C.unmarshal` returns for the bytes `C.marshal` produced - nothing ties it to the body the sender passed.  The `_c01`
+  forms pin it (`Code.plainList items` of the sender's `variableList`), and `recv_delivers_calls_c01` states type,
+  flags, serial and every header attribute from the constructor ARGUMENTS (C03 `constructed_from_arguments` composed).
+* The hooks return normally (no re-entry, no exception of a handler). -/
+
+/-- Tie to the extracted tables: the dispatch chain of `rawDBusMessageReceived` (`hookOfType`) sends the type code of
+every message class of message.py to the hook named after that class, and the type codes are those of the
+specification (METHOD_CALL 1, METHOD_RETURN 2, ERROR 3, SIGNAL 4). -/
+theorem dispatch_table_ok :
+    (∀ cls, hookOfType (Gen.Message.tables.messageType cls) = some (Hook.ofClass cls)) ∧
+    (Gen.Message.tables.messageType .methodCall = 1 ∧ Gen.Message.tables.messageType .methodReturn = 2 ∧
+     Gen.Message.tables.messageType .error = 3 ∧ Gen.Message.tables.messageType .signal = 4) :=
+  ⟨fun cls => by cases cls <;> decide, by decide, by decide, by decide, by decide⟩
+
+/-- **C04 ∘ C03 with the whole of `rawDBusMessageReceived`, any codec** (`hC` carried in `SentOK`; the body clause is
+relative to the codec).  Sent messages `xs` without descriptors, receiver's descriptor list `fds`, ANY cutting into
+reads: `recvRun` raises nothing; its effects are exactly the frames of `xs`; EVERY MESSAGE REACHES THE HOOK OF ITS CLASS
+(`methodCallReceived` for a method call, ...), each hook call once, in order, and is handed exactly the expected
+content, `otherFlags = 0` and the three raw parts of the constructed message; `_receivedFDs` is unchanged; nothing
+stays buffered. -/
+theorem recv_delivers_sent {β : Type} (C : Msg.BodyCodec β) (na : Char → Bool) (maxLen : Nat)
+    (hmax : maxLen ≤ Msg.Spec.maxMessage) (A : Auth α) (s : St α) (xs : List (Sent β)) (reads : List Bytes)
+    (fds : List PyVal)
+    (ha : s.authenticated = true) (hbuf : s.buffer = []) (hnext : s.nextMsgLen = 0)
+    (hxs : ∀ x ∈ xs, WithMsg.SentOK Gen.Message.tables C na maxLen x)
+    (hfds : ∀ x ∈ xs, x.fds = some fds) (hnofd : ∀ x ∈ xs, x.msg.attrs .unixFds = .none)
+    (h : reads.flatten = (xs.map (·.msg.raw)).flatten) :
+    (recvRun Gen.Message.tables C A s fds reads).2.1 = xs.map (fun x => Effect.msg x.msg.raw) ∧
+    (recvRun Gen.Message.tables C A s fds reads).2.2.1.map (Except.map (handedOf Gen.Message.tables))
+      = xs.map (fun x => .ok (x.handed Gen.Message.tables)) ∧
+    (recvRun Gen.Message.tables C A s fds reads).2.2.2 = fds ∧
+    (recvRun Gen.Message.tables C A s fds reads).1.buffer = [] := by
+  have hd := delivers_parsed_messages C na maxLen hmax A s xs reads ha hbuf hnext hxs h
+  have hm : msgsOf (run A s reads).2 = xs.map (·.msg.raw) := by
+    have e : xs.map (fun x => Effect.msg x.msg.raw) = (xs.map (·.msg.raw)).map Effect.msg := by
+      rw [List.map_map]; rfl
+    rw [hd.1, e, WithMsg.msgsOf_map_msg]
+  have hr := WithMsg.recvRun_sent Gen.Message.tables C A fds s reads xs hm (fun x hx =>
+    WithMsg.handsOver_of_sentOK _ Msg.genTables_ok dispatch_table_ok.1 C na maxLen fds x (hxs x hx) (hfds x hx)
+      (hnofd x hx))
+  exact ⟨hr.2.1.trans hd.1, hr.2.2.1, hr.2.2.2, by rw [hr.1]; exact hd.2.2⟩
+
+/-- The same with C01's codec: no hypothesis about the codec; the body handed over is C01's normal form of the body
+the sender passed. -/
+theorem recv_delivers_sent_c01 (na : Char → Bool) (maxLen : Nat) (hmax : maxLen ≤ Msg.Spec.maxMessage)
+    (fuel : Nat) (A : Auth α) (s : St α) (xs : List (Sent PyVal)) (reads : List Bytes) (fds : List PyVal)
+    (ha : s.authenticated = true) (hbuf : s.buffer = []) (hnext : s.nextMsgLen = 0)
+    (hxs : ∀ x ∈ xs, WithMsg.SentC01 Gen.Message.tables na maxLen fuel x)
+    (hfds : ∀ x ∈ xs, x.fds = some fds) (hnofd : ∀ x ∈ xs, x.msg.attrs .unixFds = .none)
+    (h : reads.flatten = (xs.map (·.msg.raw)).flatten) :
+    (recvRun Gen.Message.tables (Msg.wireCodec fuel) A s fds reads).2.1 = xs.map (fun x => Effect.msg x.msg.raw) ∧
+    (recvRun Gen.Message.tables (Msg.wireCodec fuel) A s fds reads).2.2.1.map
+        (Except.map (handedOf Gen.Message.tables))
+      = xs.map (fun x => .ok (x.handed Gen.Message.tables)) ∧
+    (recvRun Gen.Message.tables (Msg.wireCodec fuel) A s fds reads).2.2.2 = fds ∧
+    (recvRun Gen.Message.tables (Msg.wireCodec fuel) A s fds reads).1.buffer = [] := by
+  have hd := delivers_parsed_messages_c01 na maxLen hmax fuel A s xs reads ha hbuf hnext hxs h
+  have hm : msgsOf (run A s reads).2 = xs.map (·.msg.raw) := by
+    have e : xs.map (fun x => Effect.msg x.msg.raw) = (xs.map (·.msg.raw)).map Effect.msg := by
+      rw [List.map_map]; rfl
+    rw [hd.1, e, WithMsg.msgsOf_map_msg]
+  have hr := WithMsg.recvRun_sent Gen.Message.tables (Msg.wireCodec fuel) A fds s reads xs hm (fun x hx =>
+    WithMsg.handsOver_of_sentC01 _ Msg.genTables_ok dispatch_table_ok.1 na maxLen fuel fds x (hxs x hx) (hfds x hx)
+      (hnofd x hx))
+  exact ⟨hr.2.1.trans hd.1, hr.2.2.1, hr.2.2.2, by rw [hr.1]; exact hd.2.2⟩
+
+/-- ... behind a handshake (as `delivers_parsed_messages_after_handshake_c01`): the authenticator is handed exactly
+the handshake lines, then every sent message reaches the hook of its class with the expected observation. -/
+theorem recv_delivers_sent_after_handshake_c01 (na : Char → Bool) (maxLen : Nat)
+    (hmax : maxLen ≤ Msg.Spec.maxMessage) (fuel : Nat) (A : Auth α) (s : St α) (hs : List Bytes) (last : Bytes)
+    (xs : List (Sent PyVal)) (reads : List Bytes) (fds : List PyVal) (a1 a' : α)
+    (hr : Ready s) (ha : s.authenticated = false) (hbuf : s.buffer = []) (hcl : s.closed = false)
+    (hnext : s.nextMsgLen = 0)
+    (hlines : ∀ l ∈ hs ++ [last], Spec.hasCRLF l = false ∧ l.length ≤ maxAuthLength)
+    (hrun : authRun A s.auth hs = some a1) (hlast : A.handle a1 last = (a', .success))
+    (hxs : ∀ x ∈ xs, WithMsg.SentC01 Gen.Message.tables na maxLen fuel x)
+    (hfds : ∀ x ∈ xs, x.fds = some fds) (hnofd : ∀ x ∈ xs, x.msg.attrs .unixFds = .none)
+    (hne : reads ≠ []) (hreads : reads.flatten = Spec.unlines (hs ++ [last]) ++ (xs.map (·.msg.raw)).flatten) :
+    linesOf (recvRun Gen.Message.tables (Msg.wireCodec fuel) A s fds reads).2.1 = hs ++ [last] ∧
+    msgsOf (recvRun Gen.Message.tables (Msg.wireCodec fuel) A s fds reads).2.1 = xs.map (·.msg.raw) ∧
+    (recvRun Gen.Message.tables (Msg.wireCodec fuel) A s fds reads).2.2.1.map
+        (Except.map (handedOf Gen.Message.tables))
+      = xs.map (fun x => .ok (x.handed Gen.Message.tables)) ∧
+    (recvRun Gen.Message.tables (Msg.wireCodec fuel) A s fds reads).2.2.2 = fds ∧
+    (recvRun Gen.Message.tables (Msg.wireCodec fuel) A s fds reads).1.buffer = [] := by
+  have hd := delivers_parsed_messages_after_handshake_c01 na maxLen hmax fuel A s hs last xs reads a1 a' hr ha hbuf hcl
+    hnext hlines hrun hlast hxs hne hreads
+  have hrr := WithMsg.recvRun_sent Gen.Message.tables (Msg.wireCodec fuel) A fds s reads xs hd.2.1 (fun x hx =>
+    WithMsg.handsOver_of_sentC01 _ Msg.genTables_ok dispatch_table_ok.1 na maxLen fuel fds x (hxs x hx) (hfds x hx)
+      (hnofd x hx))
+  refine ⟨by rw [hrr.2.1]; exact hd.1, by rw [hrr.2.1]; exact hd.2.1, hrr.2.2.1, hrr.2.2.2, by rw [hrr.1]; exact hd.2.2.2⟩
+
+/-- **... stated from the CONSTRUCTOR ARGUMENTS** (C03 `constructed_from_arguments` composed).  `ys` are constructor
+calls as the sender made them (`SentCallC01`: call `y.call` made when `DBusMessage._nextSerial` stood at `y.counter ≥ 1`,
+codec = C01's, premises of `parse_marshal_c01` / `parse_marshal_no_body`), without descriptors.  However the stream of
+the constructed messages is cut into reads, call number k reaches the hook of the constructor that was called
+(`MethodCallMessage` -> `methodCallReceived`, ...) and that hook is handed: the message type of that constructor (the
+specification's code), serial = `y.counter`, the REQUESTED `expectReply` / `autoStart`, EVERY ARGUMENT UNDER ITS OWN
+HEADER ATTRIBUTE and None elsewhere (`callAttr`; a constructor that stored an argument under another attribute would
+break this), the body = C01's normal form of the body argument (`y.sent.decoded`, tied to `y.call.body` inside
+`SentCallC01`), `otherFlags = 0`, and the raw parts of the message that was sent. -/
+theorem recv_delivers_calls_c01 (na : Char → Bool) (maxLen : Nat) (hmax : maxLen ≤ Msg.Spec.maxMessage)
+    (fuel : Nat) (A : Auth α) (s : St α) (ys : List (SentCall PyVal)) (reads : List Bytes) (fds : List PyVal)
+    (ha : s.authenticated = true) (hbuf : s.buffer = []) (hnext : s.nextMsgLen = 0)
+    (hys : ∀ y ∈ ys, WithMsg.SentCallC01 Gen.Message.tables na maxLen fuel y)
+    (hfds : ∀ y ∈ ys, y.sent.fds = some fds) (hnofd : ∀ y ∈ ys, y.sent.msg.attrs .unixFds = .none)
+    (h : reads.flatten = (ys.map (·.sent.msg.raw)).flatten) :
+    (recvRun Gen.Message.tables (Msg.wireCodec fuel) A s fds reads).2.1 = ys.map (fun y => Effect.msg y.sent.msg.raw) ∧
+    (recvRun Gen.Message.tables (Msg.wireCodec fuel) A s fds reads).2.2.1.map
+        (Except.map (handedOf Gen.Message.tables))
+      = ys.map (fun y => .ok y.handed) ∧
+    (recvRun Gen.Message.tables (Msg.wireCodec fuel) A s fds reads).2.2.2 = fds ∧
+    (recvRun Gen.Message.tables (Msg.wireCodec fuel) A s fds reads).1.buffer = [] := by
+  have hmem : ∀ x ∈ ys.map (·.sent), ∃ y ∈ ys, y.sent = x := fun x hx => by
+    obtain ⟨y, hy, rfl⟩ := List.mem_map.1 hx; exact ⟨y, hy, rfl⟩
+  have hd := recv_delivers_sent_c01 na maxLen hmax fuel A s (ys.map (·.sent)) reads fds ha hbuf hnext
+    (fun x hx => by obtain ⟨y, hy, rfl⟩ := hmem x hx; exact WithMsg.sentC01_of_sentCallC01 _ na maxLen fuel y (hys y hy))
+    (fun x hx => by obtain ⟨y, hy, rfl⟩ := hmem x hx; exact hfds y hy)
+    (fun x hx => by obtain ⟨y, hy, rfl⟩ := hmem x hx; exact hnofd y hy)
+    (by rw [List.map_map]; exact h)
+  rw [List.map_map, List.map_map] at hd
+  refine ⟨hd.1, ?_, hd.2.2⟩
+  rw [hd.2.1]
+  apply List.map_congr_left
+  intro y hy
+  obtain ⟨st', _, hc, _⟩ := hys y hy
+  show Except.ok (y.sent.handed Gen.Message.tables) = Except.ok y.handed
+  rw [WithMsg.handed_eq_of_call _ Msg.genTables_ok dispatch_table_ok.2 (Msg.wireCodec fuel) na maxLen y st' hc]
+
+/-! ### Instances of the remaining composed theorems (review 3, F5) -/
+
+/-- The shared premise of the instances below: `exCall` as the first message of a process constructs (C01's codec) a
+message with the 60 bytes `exCallBytes`, without descriptors, and satisfies `SentCallC01` - hence `SentC01`. -/
+theorem exCall_sent : ∃ m1 : Msg.Msg PyVal,
+    Msg.construct Gen.Message.tables (Msg.wireCodec 2) (fun _ => false) Gen.Message.maxMsgLen ⟨1⟩ exCall
+      = (⟨2⟩, .ok m1) ∧
+    m1.raw = exCallBytes ∧ m1.attrs .unixFds = .none ∧
+    WithMsg.SentCallC01 Gen.Message.tables (fun _ => false) Gen.Message.maxMsgLen 2
+      ⟨1, exCall, ⟨m1, some [], .list [.int .plain 7]⟩⟩ := by
+  obtain ⟨st1, m1, h1⟩ := WithMsg.construct_shape (T := Gen.Message.tables) (C := Msg.wireCodec 2)
+    (na := fun _ => false) (maxLen := Gen.Message.maxMsgLen) (st := ⟨1⟩) (c := exCall) (by decide +kernel)
+  have e1 : (Msg.construct Gen.Message.tables (Msg.wireCodec 2) (fun _ => false) Gen.Message.maxMsgLen
+      ⟨1⟩ exCall).1 = ⟨2⟩ := by decide +kernel
+  have f1 : (Msg.construct Gen.Message.tables (Msg.wireCodec 2) (fun _ => false) Gen.Message.maxMsgLen
+      ⟨1⟩ exCall).2.toOption.map (fun m => (m.raw, Msg.isNone (m.attrs .unixFds)))
+      = some (exCallBytes, true) := by decide +kernel
+  rw [h1] at e1 f1
+  simp only [Except.toOption, Option.map_some, Option.some.injEq, Prod.mk.injEq] at e1 f1
+  subst e1
+  have hnone : m1.attrs .unixFds = .none := by
+    have := f1.2
+    cases hv : m1.attrs .unixFds <;> rw [hv] at this <;> first | rfl | cases this
+  have hrep : Code.RepFields [] [.int 7] false [.basic .i] [.int .plain 7] 0 0 := by
+    refine ⟨_, _, _, _, 0, rfl, rfl, ?_, ⟨rfl, rfl, rfl⟩⟩
+    simp only [Code.Rep]
+    exact ⟨.i, rfl, Or.inr ⟨by decide, ⟨_, rfl⟩, rfl⟩⟩
+  exact ⟨m1, h1, f1.1, hnone, ⟨2⟩, Nat.le_refl 1, h1,
+    Or.inr ⟨[.basic .i], .list [.int .plain 7], [.int .plain 7], [.int 7], [], [7, 0, 0, 0], rfl, rfl, rfl,
+      by decide, rfl, Or.inl rfl, by decide, rfl, hrep, by simp [Code.KeysOKList, Code.KeysOK],
+      by decide +kernel, by decide⟩⟩
+
+/-- `delivers_parsed_messages` ITSELF (any codec, `hC` carried): `ErrorMessage('a.E', 5, signature='ay', body=<3 bytes>)`
+with the byte-identity codec, its frame cut after byte 10 (inside the fixed header) and an empty read in between. -/
+example : ∃ st' m, Msg.construct Gen.Message.tables idCodec (fun _ => false) Gen.Message.maxMsgLen
+      (Msg.St.init Gen.Message.tables)
+      (.error { errorName := some "a.E".toList, replySerial := 5, signature := some "ay".toList, body := some [1, 2, 3] })
+        = (st', .ok m) ∧
+    (run okAuth { St.init true () with authenticated := true } [m.raw.take 10, [], m.raw.drop 10]).2 = [.msg m.raw] ∧
+    (parseFrames Gen.Message.tables idCodec
+        (msgsOf (run okAuth { St.init true () with authenticated := true } [m.raw.take 10, [], m.raw.drop 10]).2)
+        [none]).map (Except.map (Msg.Msg.view Gen.Message.tables))
+      = [.ok (Sent.expected Gen.Message.tables ⟨m, none, m.body.getD []⟩)] := by
+  obtain ⟨st', m, h⟩ := WithMsg.construct_shape (T := Gen.Message.tables) (C := idCodec) (na := fun _ => false)
+    (maxLen := Gen.Message.maxMsgLen) (st := Msg.St.init Gen.Message.tables)
+    (c := .error { errorName := some "a.E".toList, replySerial := 5, signature := some "ay".toList, body := some [1, 2, 3] })
+    (by decide +kernel)
+  have hs : Msg.Main.SigNoNul (β := Bytes)
+      (.error { errorName := some "a.E".toList, replySerial := 5, signature := some "ay".toList, body := some [1, 2, 3] }) := by
+    intro sg hsg; cases hsg; rfl
+  have hd := delivers_parsed_messages idCodec (fun _ => false) Gen.Message.maxMsgLen (by decide) okAuth
+    { St.init true () with authenticated := true } [⟨m, none, m.body.getD []⟩] [m.raw.take 10, [], m.raw.drop 10]
+    rfl rfl rfl
+    (by intro x hx
+        simp only [List.mem_cons, List.not_mem_nil, or_false] at hx
+        subst hx
+        exact ⟨_, st', _, by decide, hs, h, fun _ _ _ => ⟨_, _, rfl, rfl⟩⟩)
+    (by simp)
+  exact ⟨st', m, h, hd.1, hd.2.1⟩
+
+/-- `delivers_parsed_messages_after_handshake_c01` and `recv_delivers_sent_after_handshake_c01`: `BEGIN` CR LF followed
+by the frame of `exCall`, cut BETWEEN CR AND LF of the handshake line (the LF shares a read with the whole message):
+the authenticator gets `BEGIN`, `methodCallReceived` gets the call with body `[7]`. -/
+example : ∃ m1 : Msg.Msg PyVal, m1.raw = exCallBytes ∧
+    linesOf (run okAuth (St.init true ()) [beginLine ++ [13], 10 :: exCallBytes]).2 = [beginLine] ∧
+    msgsOf (run okAuth (St.init true ()) [beginLine ++ [13], 10 :: exCallBytes]).2 = [exCallBytes] ∧
+    (parseFrames Gen.Message.tables (Msg.wireCodec 2)
+        (msgsOf (run okAuth (St.init true ()) [beginLine ++ [13], 10 :: exCallBytes]).2) [some []]).map
+        (Except.map (Msg.Msg.view Gen.Message.tables))
+      = [.ok (Sent.expected Gen.Message.tables ⟨m1, some [], .list [.int .plain 7]⟩)] ∧
+    (recvRun Gen.Message.tables (Msg.wireCodec 2) okAuth (St.init true ()) []
+        [beginLine ++ [13], 10 :: exCallBytes]).2.2.1.map (Except.map (handedOf Gen.Message.tables))
+      = [.ok (Sent.handed Gen.Message.tables ⟨m1, some [], .list [.int .plain 7]⟩)] := by
+  obtain ⟨m1, _, hraw, hnone, hy⟩ := exCall_sent
+  have hx := WithMsg.sentC01_of_sentCallC01 _ _ _ _ _ hy
+  have hreads : [beginLine ++ [13], 10 :: exCallBytes].flatten
+      = Spec.unlines ([] ++ [beginLine]) ++ ([(⟨m1, some [], .list [.int .plain 7]⟩ : Sent PyVal)].map (·.msg.raw)).flatten := by
+    show _ = _ ++ ([m1.raw] : List Bytes).flatten
+    rw [hraw]; decide
+  have hd := delivers_parsed_messages_after_handshake_c01 (fun _ => false) Gen.Message.maxMsgLen (by decide) 2 okAuth
+    (St.init true ()) [] beginLine [⟨m1, some [], .list [.int .plain 7]⟩] _ () () (Or.inl rfl) rfl rfl rfl rfl
+    (by decide) rfl rfl
+    (by intro x hx'; simp only [List.mem_cons, List.not_mem_nil, or_false] at hx'; subst hx'; exact hx)
+    (by simp) hreads
+  have hr := recv_delivers_sent_after_handshake_c01 (fun _ => false) Gen.Message.maxMsgLen (by decide) 2 okAuth
+    (St.init true ()) [] beginLine [⟨m1, some [], .list [.int .plain 7]⟩] _ [] () () (Or.inl rfl) rfl rfl rfl rfl
+    (by decide) rfl rfl
+    (by intro x hx'; simp only [List.mem_cons, List.not_mem_nil, or_false] at hx'; subst hx'; exact hx)
+    (by intro x hx'; simp only [List.mem_cons, List.not_mem_nil, or_false] at hx'; subst hx'; rfl)
+    (by intro x hx'; simp only [List.mem_cons, List.not_mem_nil, or_false] at hx'; subst hx'; exact hnone)
+    (by simp) hreads
+  refine ⟨m1, hraw, hd.1, ?_, hd.2.2.1, hr.2.2.1⟩
+  rw [hd.2.1]; show [m1.raw] = _; rw [hraw]
+
+/-- `receive_delivers_sent_c01` and `recv_delivers_calls_c01` on `exCall`, frame cut after bytes 7 and 30, receiver's
+descriptor list `[]`.  The second conclusion is stated FROM THE ARGUMENTS of the constructor call: the hook is
+`methodCallReceived`; it is handed type 1, serial 1 (the counter), path '/a', member 'm', signature 'i', no interface /
+destination / sender / error name / reply serial, both flags True, body `[7]`, `otherFlags = 0`. -/
+example :
+    (receive Gen.Message.tables (Msg.wireCodec 2) okAuth { St.init true () with authenticated := true }
+        [exCallBytes.take 7, (exCallBytes.drop 7).take 23, exCallBytes.drop 30] (some [])).2.1 = [.msg exCallBytes] ∧
+    ((recvRun Gen.Message.tables (Msg.wireCodec 2) okAuth { St.init true () with authenticated := true } []
+        [exCallBytes.take 7, (exCallBytes.drop 7).take 23, exCallBytes.drop 30]).2.2.1.map
+        (Except.map (handedOf Gen.Message.tables))).map
+        (Except.map fun h => (h.hook, h.view.messageType, h.view.serial, h.view.expectReply, h.view.autoStart,
+          Msg.Attr.all.map h.view.attrs, h.view.body, h.otherFlags))
+      = [.ok (some .methodCallReceived, 1, 1, true, true,
+              [.str .plain "/a".toList, .none, .str .plain "m".toList, .none, .none, .none, .none,
+               .str .plain "i".toList, .none],
+              some (.list [.int .plain 7]), 0)] := by
+  obtain ⟨m1, _, hraw, hnone, hy⟩ := exCall_sent
+  have hx := WithMsg.sentC01_of_sentCallC01 _ _ _ _ _ hy
+  have hflat : [exCallBytes.take 7, (exCallBytes.drop 7).take 23, exCallBytes.drop 30].flatten = exCallBytes := by decide
+  have h1 := receive_delivers_sent_c01 (fun _ => false) Gen.Message.maxMsgLen (by decide) 2 okAuth
+    { St.init true () with authenticated := true } [⟨m1, some [], .list [.int .plain 7]⟩]
+    [exCallBytes.take 7, (exCallBytes.drop 7).take 23, exCallBytes.drop 30] (some []) rfl rfl rfl
+    (by intro x hx'; simp only [List.mem_cons, List.not_mem_nil, or_false] at hx'; subst hx'; exact hx)
+    (by intro x hx'; simp only [List.mem_cons, List.not_mem_nil, or_false] at hx'; subst hx'; rfl)
+    (by show _ = ([m1.raw] : List Bytes).flatten; rw [hraw, hflat]; simp)
+  have h2 := recv_delivers_calls_c01 (fun _ => false) Gen.Message.maxMsgLen (by decide) 2 okAuth
+    { St.init true () with authenticated := true } [⟨1, exCall, ⟨m1, some [], .list [.int .plain 7]⟩⟩]
+    [exCallBytes.take 7, (exCallBytes.drop 7).take 23, exCallBytes.drop 30] [] rfl rfl rfl
+    (by intro y hy'; simp only [List.mem_cons, List.not_mem_nil, or_false] at hy'; subst hy'; exact hy)
+    (by intro y hy'; simp only [List.mem_cons, List.not_mem_nil, or_false] at hy'; subst hy'; rfl)
+    (by intro y hy'; simp only [List.mem_cons, List.not_mem_nil, or_false] at hy'; subst hy'; exact hnone)
+    (by show _ = ([m1.raw] : List Bytes).flatten; rw [hraw, hflat]; simp)
+  refine ⟨by rw [h1.1]; show [Effect.msg m1.raw] = _; rw [hraw], ?_⟩
+  rw [h2.2.1]
+  show [Except.ok (some (callHook exCall), _, _, _, _, _, _, _)] = _
+  simp only [SentCall.handed, SentCall.expectedView, hnone]
+  rfl
+
+/-- A method return with header field array length 0 and no body, and the same with the unknown message type 9. -/
+def badTypeMsg : Bytes := [108, 9, 0, 1, 0, 0, 0, 0, 1, 0, 0, 0, 0, 0, 0, 0]
+
+/-- The hooks called, per delivery (none for an exception). -/
+def hooksOf (r : St Unit × List Effect × List (Except PyErr (Option Hook × Msg.Msg PyVal)) × List PyVal) :
+    List (Option (Option Hook)) :=
+  r.2.2.1.map (fun c => c.toOption.map (·.1))
+
+/-- `[type-9 message ++ good message, good message]`: two reads. -/
+def abortRun1 := recvRun Gen.Message.tables (Msg.wireCodec 2) okAuth { St.init true () with authenticated := true } []
+  [badTypeMsg ++ tinyMsg, tinyMsg]
+
+/-- `[good ++ type-9 ++ good]`: one read. -/
+def abortRun2 := recvRun Gen.Message.tables (Msg.wireCodec 2) okAuth { St.init true () with authenticated := true } []
+  [tinyMsg ++ badTypeMsg ++ tinyMsg]
+
+/-- **What `recvRun` does on a frame that does not parse** (review 3, F3; the reviewer's probe on the real code: 0 hook
+calls, MarshallingError escapes `dataReceived`, the good message stays in `_buffer`, `_nextMsgLen == 0`): `[type-9 message,
+good message]` in ONE read - the bad frame is delivered, the exception escapes (`crash`), the 16 bytes of the good message
+stay buffered, no hook is called, the next read is not delivered; with the good message FIRST it reaches its hook
+(`methodReturnReceived`) before the exception. -/
+theorem recvRun_aborts_at_parse_error :
+    (abortRun1.2.1 = [.msg badTypeMsg, .crash] ∧ abortRun1.1.buffer = tinyMsg ∧ abortRun1.1.nextMsgLen = 0 ∧
+      hooksOf abortRun1 = [none]) ∧
+    (abortRun2.2.1 = [.msg tinyMsg, .msg badTypeMsg, .crash] ∧ abortRun2.1.buffer = tinyMsg ∧
+      abortRun2.1.nextMsgLen = 0 ∧ hooksOf abortRun2 = [some (some .methodReturnReceived), none]) := by
+  refine ⟨⟨?_, ?_, ?_, ?_⟩, ⟨?_, ?_, ?_, ?_⟩⟩ <;> decide +kernel
+
 end Txdbus.Proto
 
 open Txdbus.Proto in
@@ -680,3 +1001,17 @@ open Txdbus.Proto in
 #print axioms delivers_parsed_messages_after_handshake
 open Txdbus.Proto in
 #print axioms delivers_parsed_messages_after_handshake_c01
+open Txdbus.Proto in
+#print axioms dispatch_table_ok
+open Txdbus.Proto in
+#print axioms recv_delivers_sent
+open Txdbus.Proto in
+#print axioms recv_delivers_sent_c01
+open Txdbus.Proto in
+#print axioms recv_delivers_sent_after_handshake_c01
+open Txdbus.Proto in
+#print axioms recv_delivers_calls_c01
+open Txdbus.Proto in
+#print axioms exCall_sent
+open Txdbus.Proto in
+#print axioms recvRun_aborts_at_parse_error
